@@ -40,8 +40,7 @@ impl StaticString {
     pub fn remove(&mut self, idx: usize) -> (r: Option<u8>)
         ensures final(self).cap == old(self).cap,
             idx < old(self).bytes@.len() ==> r == Some(old(self).bytes@[idx as int]) && final(self).bytes@ == old(self).bytes@.remove(idx as int),
-            idx >= old(self).bytes@.len() ==> final(self).bytes == old(self).bytes,
-            idx > old(self).bytes@.len() ==> r is None,
+            idx >= old(self).bytes@.len() ==> final(self).bytes == old(self).bytes && r is None,
     { unimplemented!() }
     #[verifier::external_body]
     pub fn strip_prefix(&mut self, bytes: &[u8]) -> (r: bool)
